@@ -200,12 +200,20 @@ def _str_to_set(
     if isinstance(value, str):
         return {value}
     if hasattr(value, "__iter__"):
-        return set(value)
+        try:
+            return set(value)
+        except TypeError:
+            # Unhashable items (e.g. nested lists or tables). Return the value
+            # as-is; the validator reports the wrong type.
+            return value  # type: ignore
     return {value}
 
 
 def _str_to_set_of_expr(value: Any) -> set[Expression]:
     value = _str_to_set(value)
+    if not isinstance(value, set):
+        # Not convertible to a set; the validator reports the wrong type.
+        return value
     result = set()
     for expression in value:
         try:
@@ -406,6 +414,19 @@ class ReuseTOML(GlobalLicensing):
         new_dict["source"] = source
 
         annotation_dicts = values.get("annotations", [])
+        if not isinstance(annotation_dicts, list) or not all(
+            isinstance(annotation, dict) for annotation in annotation_dicts
+        ):
+            raise GlobalLicensingParseTypeError(
+                _(
+                    "'annotations' must be a list of tables (got {value} that"
+                    " is a {value_class})."
+                ).format(
+                    value=repr(annotation_dicts),
+                    value_class=repr(annotation_dicts.__class__),
+                ),
+                source=source,
+            )
         try:
             annotations = [
                 AnnotationsItem.from_dict(annotation)
